@@ -38,6 +38,7 @@ type tx struct {
 	trees   map[string]btree.BtreeInterface[int, string]
 	created map[string]bool
 	addsSeen map[string]int
+	seen    map[string]int // generation of each attached store at attach time
 	adds    map[string][]string
 	gateOn  bool
 	parked  chan struct{}
@@ -56,7 +57,13 @@ type world struct {
 	txs     []*tx
 	nextT   int
 	nextKey int
+	curVanished bool
+	creator map[string]*tx // who created the current incarnation of a store
+	creatorCommitted map[string]bool
+	hadVanishedCommit bool
 	removed map[string]bool // names explicitly removed by RemoveBtree at some point
+	gen     map[string]int  // how many times a store of that name was created
+	alive   map[string]bool // a store of that name exists now
 }
 
 func classify(err error) string {
@@ -93,7 +100,7 @@ func normSlot(n int) int {
 
 func (w *world) begin() *tx {
 	w.nextT++
-	x := &tx{id: w.nextT, h: &storex.Hooks{}, trees: map[string]btree.BtreeInterface[int, string]{}, created: map[string]bool{}, addsSeen: map[string]int{},
+	x := &tx{id: w.nextT, h: &storex.Hooks{}, trees: map[string]btree.BtreeInterface[int, string]{}, created: map[string]bool{}, addsSeen: map[string]int{}, seen: map[string]int{},
 		adds: map[string][]string{}, parked: make(chan struct{}), release: make(chan struct{}), done: make(chan result, 1)}
 	x.h.BeforeSR = func(call string, names []string) {
 		if call == "Add" && x.gateOn {
@@ -126,6 +133,9 @@ func (w *world) listing(base string) (folders []string, list []string) {
 
 func (w *world) afterAbort(x *tx, how string) {
 	x.live = false
+	for n := range x.created {
+		w.alive[n] = false
+	}
 	folders, list := w.listing(w.e.Folders[0])
 	for n := range x.created {
 		for _, f := range append(append([]string{}, folders...), list...) {
@@ -150,10 +160,16 @@ func (w *world) finishNew(x *tx, name string, o storex.Opts, r result, opLine st
 			x.addsSeen[name] = adds
 			x.created[name] = true
 			x.trees[name] = r.b
+			w.gen[name]++
+			w.alive[name] = true
+			w.creator[name] = x
+			w.creatorCommitted[name] = false
+			x.seen[name] = w.gen[name]
 			out = "created"
 		} else {
 			if x.trees[name] == nil {
 				x.trees[name] = r.b
+				x.seen[name] = w.gen[name]
 			}
 			out = "opened"
 		}
@@ -237,8 +253,16 @@ func (w *world) open(x *tx, name string) {
 		return
 	}
 	x.trees[name] = b
+	x.seen[name] = w.gen[name]
 	w.s.Op(op, "opened")
 	w.s.Hit("open:ok")
+}
+
+// canAdd: the generator writes only into the incarnation of a store the transaction is attached to, and only when
+// that incarnation was created by the transaction itself or by one that has committed (writing into another
+// transaction's uncommitted store is first-root-race territory, C04/C06; the directed corpus has one such case).
+func (w *world) canAdd(x *tx, name string) bool {
+	return w.alive[name] && w.gen[name] == x.seen[name] && (w.creator[name] == x || w.creatorCommitted[name])
 }
 
 func (w *world) add(x *tx, name string) {
@@ -255,6 +279,11 @@ func (w *world) add(x *tx, name string) {
 }
 
 func (w *world) commit(x *tx) {
+	if !w.mayCommit(x) {
+		w.rollback(x)
+		return
+	}
+	vanished := w.stale(x) == "vanished"
 	err := x.t.T.Commit(w.ctx)
 	out := "ok"
 	if err != nil {
@@ -267,6 +296,16 @@ func (w *world) commit(x *tx) {
 		return
 	}
 	x.live = false
+	for n := range x.created {
+		if w.creator[n] == x {
+			w.creatorCommitted[n] = true
+		}
+	}
+	if vanished {
+		w.hadVanishedCommit = true
+	}
+	w.curVanished = vanished
+	defer func() { w.curVanished = false }()
 	// create_race / intact: a store this transaction created and committed into must be there with its items,
 	// unless it was explicitly removed (RemoveBtree) in between.
 	var ds []storex.StoreDump
@@ -306,6 +345,9 @@ func (w *world) commit(x *tx) {
 
 // lostSig names the mechanism: some other transaction's NewBtree had its Add(name) refused and then called Remove(name).
 func (w *world) lostSig(name, dflt string) string {
+	if w.curVanished {
+		return "C12/commit-with-vanished-store-drops-counts"
+	}
 	for _, y := range w.txs {
 		cs := y.h.CallLines()
 		for i := 0; i+1 < len(cs); i++ {
@@ -315,6 +357,38 @@ func (w *world) lostSig(name, dflt string) string {
 		}
 	}
 	return dflt
+}
+
+// stale classifies a transaction with adds on a store that vanished ("vanished") or was re-created ("recreated")
+// under it; "" when every store it wrote into is still the one it attached to.
+func (w *world) stale(x *tx) string {
+	out := ""
+	for n, a := range x.adds {
+		if len(a) == 0 {
+			continue
+		}
+		if w.gen[n] != x.seen[n] {
+			return "recreated"
+		}
+		if !w.alive[n] {
+			out = "vanished"
+		}
+	}
+	return out
+}
+
+// mayCommit: commits into stores removed or re-created under the transaction are outside C12 (what happens to the
+// data is C01/C06 matter); only the single-layout "vanished" flavour, whose outcome the model carries, is run.
+func (w *world) mayCommit(x *tx) bool {
+	st := w.stale(x)
+	if st == "recreated" || (st == "vanished" && w.e.Replicated()) {
+		w.s.Hit("stale_txn_rolled_back:" + st)
+		return false
+	}
+	if st == "vanished" {
+		w.s.Hit("commit_with_vanished_store")
+	}
+	return true
 }
 
 func (w *world) removedSince(x *tx, name string) bool { return x.fail || w.removed[name+fmt.Sprint("@", x.id)] }
@@ -337,6 +411,7 @@ func (w *world) remove(name string) {
 		out = "err"
 	}
 	w.removed[name] = true
+	w.alive[name] = false
 	for _, y := range w.txs {
 		w.removed[name+fmt.Sprint("@", y.id)] = true
 	}
@@ -359,7 +434,11 @@ func (w *world) dump() {
 		if d.Err != "" {
 			w.s.Fail("C12/listed-store-unreadable", "a listed store cannot be opened or scanned", d.String())
 		} else if int(d.Count) != len(d.Items) {
-			w.s.Fail("C12/count-items-mismatch", "a store's Count differs from the number of items a scan returns", d.String())
+			sig := "C12/count-items-mismatch"
+			if w.hadVanishedCommit {
+				sig = "C12/commit-with-vanished-store-drops-counts"
+			}
+			w.s.Fail(sig, "a store's Count differs from the number of items a scan returns", d.String())
 		}
 	}
 	if w.e.Replicated() {
@@ -420,7 +499,7 @@ func newWorld(ctx context.Context, s *hx.Session, replicated bool) (*world, func
 	}
 	s.BeginCase(layout)
 	s.Hit("layout:" + layout)
-	return &world{ctx: ctx, s: s, e: e, removed: map[string]bool{}}, func() { os.RemoveAll(root) }
+	return &world{ctx: ctx, s: s, e: e, removed: map[string]bool{}, gen: map[string]int{}, alive: map[string]bool{}, creator: map[string]*tx{}, creatorCommitted: map[string]bool{}}, func() { os.RemoveAll(root) }
 }
 
 // the run-confirmed witness: the loser of a same-name create race
@@ -505,6 +584,25 @@ func corpusRollbacks(ctx context.Context, s *hx.Session, replicated bool) {
 	w.finish()
 }
 
+// a transaction writes into another transaction's uncommitted store, which then vanishes (single layout)
+func corpusVanished(ctx context.Context, s *hx.Session) {
+	w, clean := newWorld(ctx, s, false)
+	defer clean()
+	s.Nontrivial()
+	s.Hit("corpus:vanished-store")
+	a := w.begin()
+	w.newAtomic(a, "sc", optMenu[0])
+	b := w.begin()
+	w.newAtomic(b, "sc", optMenu[0]) // opens a's uncommitted store
+	w.rollback(a)                     // sc vanishes under b
+	w.newAtomic(b, "sa", optMenu[0])
+	w.add(b, "sa")
+	w.add(b, "sc")
+	w.commit(b)
+	w.dump()
+	w.finish()
+}
+
 func genCase(ctx context.Context, s *hx.Session, p *hx.Prng, replicated bool) {
 	w, clean := newWorld(ctx, s, replicated)
 	defer clean()
@@ -546,7 +644,11 @@ func genCase(ctx context.Context, s *hx.Session, p *hx.Prng, replicated bool) {
 					ns = append(ns, n)
 				}
 				sort.Strings(ns)
-				w.add(x, ns[p.Intn(len(ns))])
+				if n := ns[p.Intn(len(ns))]; w.canAdd(x, n) {
+					w.add(x, n)
+				} else {
+					w.s.Hit("add_skipped_foreign_or_stale")
+				}
 			}
 		case r < 80:
 			x := lv[p.Intn(len(lv))]
@@ -607,6 +709,7 @@ func run(o hx.RunOpts) error {
 		corpusRemoveRecreate(ctx, s, repl)
 		corpusRollbacks(ctx, s, repl)
 	}
+	corpusVanished(ctx, s)
 	if !o.Thorough() {
 		// a taste of the replicated layout in the quick tier
 		corpusRace(ctx, s, true, false)
